@@ -128,6 +128,7 @@ class Expression(Number):
                 return
         if self.operator.content == "-" and isinstance(self.children[0], Expression) and isinstance(self.children[1], Expression):
             self.operator = Operator("+", Token.empty())
+            self.content = "+"
             self.children = (Expression("*", Token.empty(), (self.children[1], Constant(
                 "-1", Token.empty())), Operator("*", Token.empty())), self.children[0])
 
